@@ -373,7 +373,10 @@ type invFormula struct {
 func (g *gen) invariantFormulas(li *loopInfo, e *env) []invFormula {
 	var out []invFormula
 	for _, a := range li.autoInv {
-		if g.P.disabledAuto[g.vc.Func+"/"+a.name] {
+		g.P.mu.Lock()
+		dis := g.P.disabledAuto[g.vc.Func+"/"+a.name]
+		g.P.mu.Unlock()
+		if dis {
 			continue
 		}
 		out = append(out, invFormula{name: a.name, term: a.mk(e), auto: true})
@@ -507,6 +510,68 @@ func (g *gen) buildAutoInvariants(li *loopInfo, b *ssa.BasicBlock, phis []*ssa.P
 				c := cur(e)
 				return sAnd(app(">=", app("s.len", c), "0"), app(">=", app("s.off", c), "0"), app(">=", app("s.base", c), "0"))
 			}})
+		}
+	}
+	// candidates about the function's node parameters and local contexts (used by the frame inference)
+	if g.con != nil && g.con.flag("synth") {
+		for _, prm := range g.fn.Params {
+			prm := prm
+			if isNodePtr(prm.Type()) {
+				pt := g.vals[prm]
+				name := fmt.Sprintf("loop%d/auto:%s-content-fresh", li.ordinal, prm.Name())
+				ct := deref(prm.Type())
+				fi := -1
+				stt := ct.Underlying().(*types.Struct)
+				for i := 0; i < stt.NumFields(); i++ {
+					if stt.Field(i).Name() == "Content" {
+						fi = i
+					}
+				}
+				if fi >= 0 {
+					li.autoInv = append(li.autoInv, autoInv{name, func(e *env) string {
+						h, _ := g.fieldArr(e.st, ct, fi)
+						b := app("s.base", app("select", h, pt))
+						return sOr(sEq(pt, "0"), sEq(b, "0"), app(">", b, g.top0))
+					}})
+				}
+			}
+		}
+		rc := ""
+		for _, prm := range g.fn.Params {
+			if strings.HasSuffix(types.TypeString(deref(prm.Type()), nil), "yqlib.Context") && prm.Name() != "_" {
+				ev := g.spec(g.entryEnv(g.entry), mustParse(prm.Name()+".DontAutoCreate"))
+				rc = ev.t
+				break
+			}
+		}
+		if rc != "" {
+			for _, blk := range g.fn.Blocks {
+				if !blk.Dominates(b) || blk == b {
+					continue
+				}
+				for _, in := range blk.Instrs {
+					a, ok := in.(*ssa.Alloc)
+					if !ok || !a.Heap || !strings.HasSuffix(types.TypeString(deref(a.Type()), nil), "yqlib.Context") {
+						continue
+					}
+					at, ok := g.vals[a]
+					if !ok {
+						continue
+					}
+					ct := deref(a.Type())
+					stt := ct.Underlying().(*types.Struct)
+					for i := 0; i < stt.NumFields(); i++ {
+						if stt.Field(i).Name() == "DontAutoCreate" {
+							fi := i
+							name := fmt.Sprintf("loop%d/auto:%s-stays-read-only", li.ordinal, a.Comment)
+							li.autoInv = append(li.autoInv, autoInv{name, func(e *env) string {
+								h, _ := g.fieldArr(e.st, ct, fi)
+								return sImp(rc, app("select", h, at))
+							}})
+						}
+					}
+				}
+			}
 		}
 	}
 	if li.rangeIt != nil {
